@@ -143,8 +143,8 @@ def call_for(cfg, data):
     e, var = cfg["e"]["entry"], cfg["e"]["variant"]
     circuit = None
     if e == "kk":
-        if var.endswith("-fixed"):
-            kw = dict(test=var[:-6], num_RC=8, num_F_ext_evaluations=0, num_procs=1)
+        if var.endswith(("-Z", "-Y")):
+            kw = dict(test=var[:-2], num_RC=8, num_F_ext_evaluations=0, admittance=var.endswith("-Y"), num_procs=1, max_nfev=100)
         else:
             kw = dict(admittance=(True if var == "auto-admittance" else None), num_procs=1)
         fn = lambda: [pyimpspec.perform_kramers_kronig_test(data, **kw)]  # noqa: E731
